@@ -120,7 +120,7 @@ func run(env *drive.Env) error {
 					Start: func(num uint64, st *state.StateDB, hdr *types.Header) { n = num },
 					AfterTx: func(i int, a *ATx, r *TxResult, st *state.StateDB, hdr *types.Header) {
 						env.Emit(map[string]interface{}{"ev": "Tx", "blk": n, "i": i, "k": a.K, "from": a.A, "v": a.V, "b": a.B, "x": a.X,
-							"f": a.F, "c": a.C, "r": a.R, "p": r.Price, "refused": r.Refused, "failed": r.Failed, "err": r.Err, "gas": r.GasUsed, "lim": r.GasLimit,
+							"f": a.F, "c": a.C, "r": a.R, "p": r.Price, "refused": r.Refused, "failed": r.Failed, "err": r.Err, "herr": r.HandlerErr, "gas": r.GasUsed, "lim": r.GasLimit,
 							"obs": w.ReadBuckets(st, hdr.GasRewards, false)})
 					},
 					AfterEnd: func(st *state.StateDB, hdr *types.Header, payouts []Payout, rcpt *types.Receipt) {
